@@ -49,6 +49,19 @@ func (m Map) validate() error {
 				errs = append(errs, errorx.Invalid("Chord %s Extends %s not found", c.Name, x))
 			}
 		}
+		// a chain of extends longer than the dictionary can only be a cycle,
+		// GetChordAttributes would never return
+		for x, n := c.Extends, 0; x != ""; n++ {
+			p, ok := m.chords[x]
+			if !ok {
+				break
+			}
+			if n > len(m.chords) {
+				errs = append(errs, errorx.Invalid("Chord %s Extends cyclically", c.Name))
+				break
+			}
+			x = p.Extends
+		}
 	}
 
 	return errors.Join(errs...)
